@@ -147,8 +147,48 @@ def discharge(ob, timeout_ms=20000, use_cvc5=True, cross=False, shared=None):
         if r1 == "unsat":
             ob.verdict, ob.backend, ob.time_s = "proved", "z3-" + z3.get_version_string() + " (sequence axioms instantiated, EUF+LIA)", time.time() - t0
             return ob
-    s = _mk_solver(ob, timeout_ms)
+    # 2. relevance slicing: hypotheses within 1..3 symbol-sharing steps of the goal (dropping hypotheses is sound;
+    #    only an `unsat` answer is used)
+    if not cross and len(ob.pc) > 60:
+        last = -1
+        for depth in (1, 2, 3):
+            sub = relevant_pc(ob, depth)
+            if len(sub) == last or len(sub) >= len(ob.pc):
+                break
+            last = len(sub)
+            ss = z3.Solver()
+            ss.set("timeout", min(timeout_ms, 4000))
+            ss.set("random_seed", 0)
+            for t in sub:
+                ss.add(t)
+            ss.add(z3.Not(ob.goal))
+            if ss.check() == z3.unsat:
+                ob.verdict, ob.backend, ob.time_s = "proved", "z3-%s (hypotheses sliced to %d of %d by relevance)" % (z3.get_version_string(), len(sub), len(ob.pc)), time.time() - t0
+                return ob
+    # 3. z3 with a short budget, then cvc5, then z3 with the full budget: obligations on which one solver's sequence
+    #    procedure stalls are usually immediate for the other
+    s = _mk_solver(ob, min(timeout_ms, 3000))
     r = s.check()
+    if r == z3.unknown and use_cvc5 and not cross and timeout_ms > 3000:
+        smt2 = s.to_smt2().replace("seq.nth_u", "seq.nth").replace("seq.nth_i", "seq.nth")
+        res, dt, err = run_cvc5(smt2, timeout_ms)
+        if res == "unsat":
+            ob.verdict, ob.backend, ob.time_s = "proved", "cvc5-1.0.3", time.time() - t0
+            return ob
+        s = _mk_solver(ob, timeout_ms)
+        r = s.check()
+        if r == z3.unknown:
+            ob.time_s = time.time() - t0
+            ob.backend = "z3-" + z3.get_version_string()
+            ob.verdict = "unknown"
+            ob.note = "z3: " + s.reason_unknown() + " | cvc5: %s %s" % (res, err.strip().replace("\n", " ")[:160])
+            if res == "sat":
+                ob.verdict, ob.backend = "refuted", "cvc5-1.0.3"
+                ob.note += " (no model extracted)"
+            return ob
+    elif r == z3.unknown and timeout_ms > 3000:
+        s = _mk_solver(ob, timeout_ms)
+        r = s.check()
     ob.time_s = time.time() - t0
     ob.backend = "z3-" + z3.get_version_string()
     if r == z3.unsat:
